@@ -61,9 +61,10 @@ def regexpp(regex: Any) -> str:
         result += "\\"
 
     if result.endswith("'") or result.count("'") > result.count('"'):
-        output = f'r"{re.sub(r'(?<!\\)"', r"\"", result)}"'
+        # NOTE: a quote is escaped already only after an odd number of backslashes
+        output = f'r"{re.sub(r'(?<!\\)((?:\\\\)*)"', r'\1\\"', result)}"'
     else:
-        output = f"r'{re.sub(r"(?<!\\)'", r"\'", result)}'"
+        output = f"r'{re.sub(r"(?<!\\)((?:\\\\)*)'", r"\1\\'", result)}'"
 
     try:
         evaluated = eval(output)  # noqa: S307
